@@ -5,7 +5,7 @@ sys.path.insert(0, os.path.dirname(os.path.dirname(os.path.abspath(__file__))))
 from harness import common
 
 MODULES = {
-    'C13': 'cli_props', 'C14': 'cli_props', 'C15': 'cli_props', 'C16': 'c16', 'C12': 'c12', 'C07': 'c07', 'C05': 'c05', 'C02': 'c02', 'C08': 'c08', 'C17': 'c17', 'C03': 'scope_props', 'C04': 'scope_props', 'C06': 'scope_props', 'C09': 'scope_props', 'C10': 'scope_props', 'C11': 'scope_props',
+    'C13': 'cli_props', 'C14': 'cli_props', 'C15': 'cli_props', 'C16': 'c16', 'C12': 'c12', 'C07': 'c07', 'C05': 'c05', 'C02': 'c02', 'C08': 'c08', 'C17': 'c17', 'C01': 'c01', 'C03': 'scope_props', 'C04': 'scope_props', 'C06': 'scope_props', 'C09': 'scope_props', 'C10': 'scope_props', 'C11': 'scope_props',
 }
 
 
